@@ -1075,8 +1075,14 @@ def check_C08(tier):
 C08_THEOREMS = ["Y.Props.C08_equiv", "Y.AD.astep_refines", "Y.AD.arun_refines",
                 # the driver text of both Go templates, translated on every run (Gen/Driver.lean), IS the array driver model
                 "C08b.step_global_eq", "C08b.step_object_eq", "C08b.parser_global_eq", "C08b.parser_object_eq",
-                "C08b.push_global_eq", "C08b.push_object_eq", "C08b.pop_global_eq", "C08b.pop_object_eq"]
-C08_MODULES = ["Yv.Props.C08", "Yv.Props.C08b"]
+                "C08b.push_global_eq", "C08b.push_object_eq", "C08b.pop_global_eq", "C08b.pop_object_eq",
+                # end to end: the translated Parser text of both templates, run with the translated packed Action text on
+                # the arrays the modelled pipeline produces, is sound / accepts exactly the language / never crashes
+                "Y.Props.packed_run_eq", "Y.Props.C01_end_to_end_global_go", "Y.Props.C01_end_to_end_object_go",
+                "Y.Props.C02_end_to_end_global_go", "Y.Props.C02_end_to_end_object_go",
+                "Y.Props.C06_end_to_end_global_go", "Y.Props.C06_end_to_end_object_go",
+                "Y.Props.C06_end_to_end_global_checked", "Y.Props.C06_end_to_end_object_checked"]
+C08_MODULES = ["Yv.Props.C08", "Yv.Props.C08b", "Yv.Props.EndToEnd"]
 C08_LEVEL = "proof"
 
 
@@ -1441,7 +1447,7 @@ def c16_render(sp, target, pkg, rng_actions):
     else:
         union = " val :number;\n str :string;\n n_2 :number;"
         pro = "// ts"
-        epi = "\nfunction GetToken(input :string, model:{ValType :ValType, pos :number}) :number {\n\treturn -1\n}\nconsole.log(\"LOADED\", Parser(\"\") === null || true);\n"
+        epi = "\nfunction GetToken(input :string, model:{ValType :ValType, pos :number}) :number {\n\treturn -1\n}\nconsole.log(\"LOADED\", typeof Parser === \"function\");\n"   # loading only: running the parser of a cyclic grammar need not terminate
     return gen.render(sp, prologue=pro, epilogue=epi, union=union, actions=acts, tags=tags)
 
 
